@@ -138,6 +138,13 @@ def cases_for(tname, tier, primary, seed=0):
         if off not in mod:
             for v in ((0x01, 0x80, 0xFF) if wide else (0xFF,)):
                 cs.append({"poke": [[off, v]], "on": off % 2 == 0})
+    # whole-field corner values of the identity fields
+    for ip in ([0, 0, 0, 0], [255, 255, 255, 255], [127, 0, 0, 1], [224, 0, 0, 251], [0, 0, 0, 1], [10, 0, 0, 0]):
+        cs.append({"ip": ip})
+    for mac in ([0] * 6, [255] * 6, [0, 0, 0, 0, 0, 1], [1, 0, 0, 0, 0, 0]):
+        cs.append({"mac": mac})
+    for did in ("000000", "ffffff", "0a0d20", "f0fef0"):
+        cs.append({"device_id": did})
     # pairwise corners between neighbouring identity fields
     for k, ipb, macb in itertools.product((0, 0xFF), (0, 0xFF), (0, 0xFF)):
         cs.append({"key": k, "ip": [ipb, 1, 2, ipb], "mac": [macb, 1, 2, 3, 4, macb], "device_id": "%02x00%02x" % (macb, k)})
